@@ -140,6 +140,18 @@ def _rank_offset(e, order: int):
     return r[1] if r is not None and r[0] == 1 else None
 
 
+def _storage(repo) -> str:
+    """the attribute in which an Operator keeps its matrix, whatever it is called: the one Operator.__matmul__ applies"""
+    op = repo.cls(f"{OP}:Operator")
+    mm = repo.method(op, "__matmul__")[1]
+    v = func_params(mm)[1]
+    rets = [r.value for r in ast.walk(mm) if isinstance(r, ast.Return) and r.value is not None]
+    if len(rets) == 1 and isinstance(rets[0], ast.BinOp) and isinstance(rets[0].op, ast.MatMult) and path_of(rets[0].left) and path_of(rets[0].left).startswith("self.") \
+            and _norm(rets[0].right) == v:
+        return path_of(rets[0].left)
+    raise AnchorError("Operator.__matmul__ is not `return self.<matrix> @ vec`")
+
+
 def run(chk, repo: Repo):
     chk.rule("C20-R7", "shared matrices are never written into: results of memoised (lru_cache) builders, matrices obtained from another object's accessor "
                        "(get_matrix()), and values of module-level keyed caches (a shared stencil patched for one boundary condition would change every operator "
@@ -161,7 +173,7 @@ def run(chk, repo: Repo):
     from .common import canon_fn
     from ..flow import Expander
     exq = Expander(canon_fn(repo, pf, cp, 2))
-    asg = [n for n in exq.cfg.nodes if n.kind == "stmt" and isinstance(n.ast, ast.Assign) and path_of(n.ast.targets[0]) == "self._matrix"]
+    asg = [n for n in exq.cfg.nodes if n.kind == "stmt" and isinstance(n.ast, ast.Assign) and path_of(n.ast.targets[0]) == _storage(repo)]
     ok = len(asg) == 1
     shown = "?"
     if ok:
@@ -179,27 +191,8 @@ def run(chk, repo: Repo):
     from ..pathtable import walk, _Sub
     from ..pattern import norm as pn
     from ..canon import clone as _clone
-    iv = canon_fn(repo, pf, init, 1)
-    nn, bc, od = func_params(init)[1:4]
-    kc = KwCanon()
-    for cname in ("FirstOrderFiniteDifference", "SecondOrderFiniteDifference"):
-        kc.add(cname, repo.method(repo.cls(f"{OP}:{cname}"), "__init__")[1])
-    want = {0: f"FirstOrderFiniteDifference({nn},'none')", 1: f"FirstOrderFiniteDifference({nn},bc_type={bc})", 2: f"SecondOrderFiniteDifference({nn},bc_type={bc})", OTHER: None}
-    bad, undec = [], []
-    for val, w in want.items():
-        kind, res = walk(iv, case_valuation(iv, od, val), pn, stop_pred=lambda a_: isinstance(a_, ast.Assign) and path_of(a_.targets[0]) == "self._diff_op")
-        if kind == "unknown":
-            undec.append(f"order={val}: {res}")
-        elif w is None:
-            if kind != "raise":
-                bad.append(f"order outside 0/1/2 is not refused ({kind})")
-        else:
-            got = pn(kc.visit(_Sub(res[0]).visit(_clone(res[1].value)))) if kind == "stop" else kind
-            if got != expected_text(w, kc):
-                bad.append(f"order={val}: self._diff_op = `{got}`, expected `{w}`")
-    chk.decide("C20-R1", f"{pf.qual}.__init__", not bad and not undec, not undec, site(repo, init),
-               "order 0/1/2 -> identity / first / second difference operator with the given boundary condition; else refuse",
-               "order dispatch of the precision operator changed: " + "; ".join(bad or undec), init)
+    from .common import best_of
+    best_of(chk, (1, 2), lambda t_, lvl: _r1_dispatch(t_, repo, pf, init, lvl))        # as written; with a private "pick the operator" helper inlined
     # R2
     gm = repo.cls("cuqi/distribution/_gmrf.py:GMRF")
     lp = repo.method(gm, "logpdf")[1]
@@ -384,7 +377,7 @@ def run(chk, repo: Repo):
                 continue
             seen.add(id(f))
             for n in ast.walk(f):
-                if isinstance(n, ast.Assign) and path_of(n.targets[0]) == "self._matrix":
+                if isinstance(n, ast.Assign) and path_of(n.targets[0]) == _storage(repo):
                     out.append((f, n))
                 if isinstance(n, ast.Call) and (call_name(n) or "").startswith("self.") and (call_name(n) or "").count(".") == 1:
                     r = ci.lookup(call_name(n)[5:])
@@ -394,7 +387,7 @@ def run(chk, repo: Repo):
     for ci, order, want in ((fo, 1, ("Dmat/self._dx",)), (so, 2, ("Dmat/self._dx**2", "Dmat/(self._dx*self._dx)", "Dmat/self._dx/self._dx"))):
         cdm = ci.lookup("_create_diff_matrix")[1]
         exm = Expander(canon_fn(repo, ci, cdm, 2))        # helpers that assemble the matrix are inlined
-        asg = [n for n in exm.cfg.nodes if n.kind == "stmt" and isinstance(n.ast, ast.Assign) and path_of(n.ast.targets[0]) == "self._matrix"]
+        asg = [n for n in exm.cfg.nodes if n.kind == "stmt" and isinstance(n.ast, ast.Assign) and path_of(n.ast.targets[0]) == _storage(repo)]
         vals = [_norm(exm.expand(n.ast.value, n, stop=frozenset({"Dmat", "N"}))) for n in asg]
         one_d = [v_ for v_ in vals if "kron" not in v_ and "vstack" not in v_]
         two_d = [v_ for v_ in vals if "vstack" in v_]
@@ -419,3 +412,31 @@ def run(chk, repo: Repo):
             chk.add("C20-R5", f"{ci.qual}._create_diff_matrix/stencil", vals == [d], site(repo, f), f"stencil diagonals {d}", f"stencil diagonals changed: {vals}", f)
     from ..cachecoh import cache_coherence
     cache_coherence(chk, repo, "C20-R6", ("cuqi/distribution/_gmrf.py", "cuqi/distribution/_lmrf.py", "cuqi/distribution/_cmrf.py", "cuqi/operator/", "cuqi/implicitprior/_regularizedGMRF.py"))
+
+
+def _r1_dispatch(chk, repo, pf, init, level):
+    from .common import canon_fn, case_valuation, OTHER, KwCanon, expected_text, closed_outcomes
+    from ..pathtable import walk, _Sub
+    from ..pattern import norm as pn
+    from ..canon import clone as _clone
+    iv = canon_fn(repo, pf, init, level)
+    nn, bc, od = func_params(init)[1:4]
+    kc = KwCanon()
+    for cname in ("FirstOrderFiniteDifference", "SecondOrderFiniteDifference"):
+        kc.add(cname, repo.method(repo.cls(f"{OP}:{cname}"), "__init__")[1])
+    want = {0: f"FirstOrderFiniteDifference({nn},'none')", 1: f"FirstOrderFiniteDifference({nn},bc_type={bc})", 2: f"SecondOrderFiniteDifference({nn},bc_type={bc})", OTHER: None}
+    bad, undec = [], []
+    for val, w in want.items():
+        kind, res = walk(iv, case_valuation(iv, od, val), pn, stop_pred=lambda a_: isinstance(a_, ast.Assign) and path_of(a_.targets[0]) == "self._diff_op")
+        if kind == "unknown":
+            undec.append(f"order={val}: {res}")
+        elif w is None:
+            if kind != "raise":
+                bad.append(f"order outside 0/1/2 is not refused ({kind})")
+        else:
+            got = pn(kc.visit(_Sub(res[0]).visit(_clone(res[1].value)))) if kind == "stop" else kind
+            if got != expected_text(w, kc):
+                bad.append(f"order={val}: self._diff_op = `{got}`, expected `{w}`")
+    chk.decide("C20-R1", f"{pf.qual}.__init__", not bad and not undec, not undec, site(repo, init),
+               "order 0/1/2 -> identity / first / second difference operator with the given boundary condition; else refuse",
+               "order dispatch of the precision operator changed: " + "; ".join(bad or undec), init)
